@@ -208,3 +208,60 @@ def run(chk):
     chk.expected_min_obligations = 20
     chk.not_covered += ["comptime sizes >= 2^63 (Range fields are int)", "that `for` loops call __next__ until nothing (C03)"]
     chk.use_engine(e)
+    chk.section("range-arguments", lambda: range_arguments(chk))
+
+
+REPLAY_RANGE_ARGS = r'''
+import guppy_plainbool
+import tempfile, importlib.util, os, sys, shutil
+CALLS = ["range(+4)", "range(-3, +3)", "range(-2, +3, +2)", "range(+6, -1, -2)", "range(0, -7, -(+3))", "range(3)", "range(1, 4)"]
+src = "from guppylang import guppy\nfrom guppylang.std.builtins import result\n@guppy\ndef main() -> None:\n" + "".join(
+    f"    result('S', {k})\n    for i in {c}:\n        result('v', i)\n" for k, c in enumerate(CALLS))
+d = tempfile.mkdtemp(dir=os.environ.get("TMPDIR", "/var/tmp")); fn = os.path.join(d, "replay_c18a.py"); open(fn, "w").write(src)
+spec = importlib.util.spec_from_file_location("replay_c18a", fn); m = importlib.util.module_from_spec(spec); sys.modules["replay_c18a"] = m
+spec.loader.exec_module(m)
+got = {}; cur = None
+for t, v in list(m.main.emulator(n_qubits=1).run().results)[0].entries:
+    if t == "S": cur = CALLS[int(v)]; got[cur] = []
+    else: got[cur].append(int(v))
+shutil.rmtree(d, ignore_errors=True)
+bad = {c: (got.get(c), list(eval(c))) for c in CALLS if got.get(c) != list(eval(c))}
+print(json.dumps({"violates": bool(bad), "observed": {c: v[0] for c, v in bad.items()}, "required": {c: v[1] for c, v in bad.items()}}))
+'''
+
+
+def range_arguments(chk):
+    """The arguments written in a `range(...)` call reach the overload variants with their source values: after the
+    CFG builder (which folds a minus sign into a numeric literal) every argument of the call in the basic block
+    evaluates to what the written argument evaluates to — `+k` stays k, `-(+k)` is -k."""
+    import ast
+    from . import C03 as C3
+    from .common import ast_from_source
+    BM = "guppylang_internals.cfg.builder"
+    e = C3.cfg_engine(chk)
+    e.func_info(BM, "ExprBuilder.visit_UnaryOp")
+    CALLS = ["range(+4)", "range(-3, +3)", "range(-2, +3, +2)", "range(+6, -1, -2)", "range(0, -7, -(+3))", "range(3)", "range(-3)", "range(1, 4)", "range(+(-2), -(-5), +(+1))", "range(-0)"]
+    for call in CALLS:
+        def t(it, call=call):
+            m = e.module(BM)
+            it.ctx.mod_globals(m)["tmp_vars"] = [f"%tmp{k}" for k in range(50)]
+            CB = it.lookup_global(m, "CFGBuilder")
+            fd = ast_from_source(it, f"def fn():\n    r = {call}\n").fields["body"][0]
+            return it.call_method(it.call(CB, [], {}), "build", [fd.fields["body"], True, SObj(ClassVal("Globals", builtin=True), {})])
+
+        def post(p, call=call):
+            if p.kind != "return":
+                return z3.BoolVal(False)
+            stmts = [C3.to_real_ext(st) for bb in p.value.fields["bbs"] for st in bb.fields["statements"]]
+            if len(stmts) != 1 or not isinstance(stmts[0], ast.Assign) or not isinstance(stmts[0].value, ast.Call):
+                return z3.BoolVal(False)
+            want = [eval(compile(ast.Expression(body=a), "<arg>", "eval"), {"__builtins__": {}}) for a in ast.parse(call, mode="eval").body.args]
+            try:
+                got = [eval(compile(ast.Expression(body=a), "<arg>", "eval"), {"__builtins__": {}}) for a in map(ast.fix_missing_locations, stmts[0].value.args)]
+            except Exception:  # noqa
+                return z3.BoolVal(False)
+            return z3.BoolVal(got == want and all(type(g) is type(w) for g, w in zip(got, want)))
+        chk.prove_paths(f"range-arguments[{call}]:every-argument-reaches-the-block-with-its-source-value", e.explore(t), post, func=f"{BM}:ExprBuilder.visit_UnaryOp",
+                        replay=lambda m_: {"script": REPLAY_RANGE_ARGS, "input": {}})
+    chk.use_engine(e)
+
